@@ -13,7 +13,7 @@ PROPS = {
         "trusted_base": ["sort.Search is modelled by its binary-search loop (proved to return the least index)"],
     },
     "C06": {
-        "suites": ["c06"],
+        "suites": ["c06", "scope-c04"],
         "assumptions": COMMON_ASSUME + [
             "Go's utf8 decoding (range over string) and bytes.Buffer.WriteRune are re-implemented in Lean (Tally/Model/Utf8.lean) and compared byte for byte through the differential",
             "a replacement rune that is not a Unicode scalar value is written as U+FFFD (lemma encodeRune; the oracle uses normRep)",
@@ -21,7 +21,7 @@ PROPS = {
         "trusted_base": ["sync.Pool buffer recycling is not modelled; its independence is exercised by 16 concurrent goroutines per 40th case"],
     },
     "C01": {
-        "suites": ["c01", "scope-c07seq", "c08sched"],
+        "suites": ["c01", "c01race", "scope-c07seq", "c08sched"],
         "assumptions": COMMON_ASSUME + [
             "a report pass reaches a counter only through counter.report / cachedReport / histogram.report (tie facts), so 'visit' = swap then optional reporter call",
             "lifting from one cell to 'per name and tags': a pass visits each registered counter once (C04/C07 cover registration and naming)",
@@ -30,7 +30,7 @@ PROPS = {
         "timeout": {"quick": 300, "thorough": 3000},
     },
     "C02": {
-        "suites": ["c02"],
+        "suites": ["c02", "c02race"],
         "assumptions": COMMON_ASSUME + [
             "one updating goroutine per gauge (the property's quantifier); the load of the value and the reporter call are one action in the model (no schedule point between them in the code; a pass pre-empted there could hand an older value to the reporter after a newer one - not exhibited, see DESIGN.md C02)",
         ],
@@ -106,7 +106,7 @@ PROPS = {
         "timeout": {"quick": 400, "thorough": 3600},
     },
     "C08": {
-        "suites": ["c08conc", "c08sched"],
+        "suites": ["c08conc", "c08sched", "c08lock"],
         "assumptions": COMMON_ASSUME + [
             "'the reporting goroutine has ended' is observed by a goroutine dump after Close returned",
             "a second Close call that overlaps the first returns nil before the first has finished (known finding D5b if exhibited); the barrier is claimed for the winning caller",
@@ -115,7 +115,7 @@ PROPS = {
         "timeout": {"quick": 400, "thorough": 3600},
     },
     "C09": {
-        "suites": ["c09"],
+        "suites": ["c09", "c09sub"],
         "assumptions": COMMON_ASSUME + [
             "data-race freedom in the sense of the Go memory model is not expressible in the interleaving model; it is supported by -race runs only",
             "a parked thread holds no lock between the read-locked probe and the write lock (tie facts)",
